@@ -52,6 +52,8 @@ def comments_of(tokens, vals=None):
         if base.is_commentish(t):
             if type(t).__module__ == "vsg.token.delimited_comment" and type(t).__name__ == "beginning":
                 cur = [v]
+            elif isinstance(t, parser.preprocessor):
+                out.append(v.lstrip(" \t"))  # the classifier folds the indentation of a directive line into its token: layout, not text
             else:
                 out.append(v)
     if cur is not None:
